@@ -200,7 +200,7 @@ def gen_cube(r, rows, cols, force=None) -> dict | None:
         yk = r.choice(LABEL_KINDS)
     extra = [e for e in CUBE_EXTRAS if r.random() < 0.25]
     return dict(y=None if yk is None else labels_of(yk, rows, r), x=None if xk is None else labels_of(xk, cols, r),
-                extra=extra, order=r.randrange(3))
+                extra=extra, order=r.randrange(3), wl_kind=r.choice(["default", "default", "decreasing", "uneven"]))
 
 
 def gen_case_once(r, force=None) -> dict:
@@ -237,7 +237,7 @@ def gen_case_once(r, force=None) -> dict:
         for b in picked:
             change[b] = dtype_sequence(r, n, UINTS if b == "image" else FLOATS)
 
-    def per_step(bucket):
+    def per_step(bucket, dt):
         if bucket in change:
             return [value_for(r, dt, debug, nelem) for dt in change[bucket]]
         if bucket == "image":
@@ -248,6 +248,16 @@ def gen_case_once(r, force=None) -> dict:
                 top = UMAX[image_dt] - nelem - 2
                 base = r.choice([r.randrange(1, 200), top - 1000 * n - r.randrange(0, 1000)])
                 stp = r.randrange(1, 1000)
+        elif dt in ("float64", "float32") and r.random() < 0.3:
+            # values a narrower float type does not hold (odd, above 2^11 resp. 2^24): a read-out or a conversion that
+            # narrows the bucket is visible in the VALUES (float dtypes themselves are not judged)
+            if debug:
+                base = r.randrange(2049, 20000) | 1
+            elif dt == "float64":
+                base = value_for(r, "float64", False, nelem)
+            else:
+                base = r.randrange(2049, 2 ** 22) | 1
+            stp = 2 * r.randrange(1, 500)
         else:
             base, stp = r.randrange(1, 120), r.randrange(1, 40)
         return [base + i * stp for i in range(n)]
@@ -262,7 +272,7 @@ def gen_case_once(r, force=None) -> dict:
         else:
             dt = r.choice(["float16", "float32", "float64"])
         a = dict(kind="write", bucket=bucket, dtype=dt, waves=waves if bucket == "photon" else 0,
-                 mode=mode, idiom=r.randrange(3), per_step=per_step(bucket))
+                 mode=mode, idiom=r.randrange(3), per_step=per_step(bucket, dt))
         if bucket in change:
             a["dtypes"] = list(change[bucket])
             a["dtype"] = change[bucket][0]
@@ -578,7 +588,7 @@ def c_otree(t) -> str:
     children = list(t["children"]) + (["?unknown_variable"] if extra else [])
     inter = "None" if t["inter"] is None else f"(Some {core.clist(c_inode(nd) for nd in t['inter'])})"
     return (f"(Some {{| o_bucket_path := {core.cstr(t['bucket_path'])}; o_children := {core.clist(core.cstr(c) for c in children)}; "
-            f"o_time := {zl(t['time'])}; o_y := {zl(t['y'])}; o_x := {zl(t['x'])}; o_vars := {core.clist(vs)}; "
+            f"o_time := {zl(t['time'])}; o_y := {zl(t['y'])}; o_x := {zl(t['x'])}; o_wl := {zl(t.get('wl', []))}; o_vars := {core.clist(vs)}; "
             f"o_inter := {inter}; o_scene := {c_payload(t['scene'])}; o_data := {c_payload(t['data'])} |}})")
 
 
@@ -594,7 +604,7 @@ def emit_case(c, o) -> str:
             f"k_nondestr := {core.cbool(c['nondestr'])}; k_hier := {core.cbool(c['hier'])}; k_debug := {core.cbool(c['debug'])};\n"
             f"   k_models := {core.clist(c_model(m) for m in models)};\n"
             f"   k_result := {c_otree(o['result'])};\n   k_result_nodebug := {c_otree(o.get('result_nodebug'))};\n"
-            f"   k_snaps := {snaps};\n   k_scene_seen := {c_payload(o['scene_seen'])}; k_data_seen := {c_payload(o['data_seen'])};\n"
+            f"   k_snaps := {snaps};\n   k_wl := {core.clist(zl(w) for w in o.get('wl_seen', []))};\n   k_scene_seen := {c_payload(o['scene_seen'])}; k_data_seen := {c_payload(o['data_seen'])};\n"
             f"   k_mrecs := {core.clist(c_mrec(m) for m in o['mrecs'])} |}}")
 
 
@@ -655,6 +665,9 @@ def slices_detail(c, o) -> list:
         out.append("time")
     if res.get("y") != list(range(c["rows"])) or res.get("x") != list(range(c["cols"])):
         out.append("coords")
+    seen = o.get("wl_seen") or []
+    if seen and seen[0] and all(w == seen[0] for w in seen) and res.get("wl") != seen[0]:
+        out.append("wavelength")
     got = {v["name"]: v for v in res.get("vars", [])}
     for b in BUCKETS:
         want = [s.get(b) for _, s in o["snaps"]]
@@ -783,7 +796,7 @@ def brief(o) -> dict:
     r = o.get("result")
     if r is None:
         return dict(error=o.get("error"))
-    return dict(bucket_path=r["bucket_path"], children=r["children"], time=r["time"], y=r["y"], x=r["x"],
+    return dict(bucket_path=r["bucket_path"], children=r["children"], time=r["time"], y=r["y"], x=r["x"], wavelength=r.get("wl", []),
                 vars=[dict(name=v["name"], dtype=v["dtype"], dims=v["dims"], shape=v["shape"], vals=v["vals"][:24]) for v in r["vars"]],
                 inter=None if r["inter"] is None else [dict(step=n["step"], group=n["group"], name=n["name"],
                                                              vars={v["name"]: v["vals"][:8] for v in n["vars"]}) for n in r["inter"]],
@@ -884,7 +897,7 @@ def run(ctx: Ctx):
 
     r = ctx.rng("cases")
     cases = fixed_cases()
-    budget = ctx.budget(220, 1300)
+    budget = ctx.budget(200, 1300)
     aimed = [dict(buckets=["photon", "signal", "pixel"], n=3, partial=True), dict(buckets=["photon"], n=4, partial=True, debug=True),
              dict(buckets=["signal", "image"], n=2, partial=True), dict(buckets=["pixel"], n=3), dict(buckets=["photon", "signal"], n=2), dict(debug=True, n=3),
              dict(debug=True, nondestr=True, n=2), dict(scene=True, hier=False), dict(data=True, n=4),
